@@ -607,6 +607,156 @@ def _in_words(a, pre):
     return d.in_words(locale=a["locale"], separator=sep)
 
 
+# ---------------------------------------------------------------- C11
+def _twin(x):
+    """the native object with the same fields and tzinfo (zoneinfo / datetime.timezone), same fold"""
+    import zoneinfo
+
+    if isinstance(x, _dt.datetime):
+        tz = x.tzinfo
+        if tz is not None:
+            zr, _k = proj.zref(tz)
+            # named zones: the zoneinfo tzinfo of the same key; fixed offsets: the very same tzinfo object
+            tz = zoneinfo.ZoneInfo(zr["n"]) if zr["n"] not in ("", "?") else tz
+        return _dt.datetime(x.year, x.month, x.day, x.hour, x.minute, x.second, x.microsecond, tzinfo=tz, fold=x.fold)
+    if isinstance(x, _dt.date):
+        return _dt.date(x.year, x.month, x.day)
+    return _dt.time(x.hour, x.minute, x.second, x.microsecond)
+
+
+def _cmp6(a, b):
+    out = []
+    for f in (lambda: a < b, lambda: a <= b, lambda: a > b, lambda: a >= b, lambda: a == b, lambda: a != b):
+        try:
+            out.append(bool(f()))
+        except Exception:  # noqa: BLE001
+            out.append(False)
+    return out
+
+
+@op("native_acc")
+def _native_acc(a, pre):
+    p = P()
+    x = pre[0]
+    t = _twin(x)
+    neq, bad = [], []
+    res = {"k": "nat"}
+
+    def same(name, f, proj_=None):
+        try:
+            vx = f(x)
+        except Exception as e:  # noqa: BLE001
+            vx = ("EXC", type(e).__name__)
+        try:
+            vt = f(t)
+        except Exception as e:  # noqa: BLE001
+            vt = ("EXC", type(e).__name__)
+        if vx != vt:
+            neq.append(name)
+        return vx
+
+    def typed(name, f, want):
+        try:
+            v = f()
+            if type(v).__name__ != want:
+                bad.append([name, type(v).__name__])
+        except Exception as e:  # noqa: BLE001
+            bad.append([name, "EXC:" + type(e).__name__])
+
+    if isinstance(x, _dt.datetime):
+        res["iso"] = proj.cps(same("isoformat", lambda v: v.isoformat()))
+        res["str"] = proj.cps(same("isoformat-space", lambda v: v.isoformat(" ")))
+        same("strftime", lambda v: v.strftime("%Y-%m-%d %H:%M:%S.%f %Z %z %j %A %a %B %b %y %I %p %U %W %G %V %u"))
+        res["ord"] = same("toordinal", lambda v: v.toordinal())
+        res["wd"] = same("weekday", lambda v: v.weekday())
+        res["iwd"] = same("isoweekday", lambda v: v.isoweekday())
+        res["isocal"] = list(same("isocalendar", lambda v: tuple(v.isocalendar())))
+        res["tt"] = list(same("timetuple", lambda v: tuple(v.timetuple())))
+        res["utt"] = list(same("utctimetuple", lambda v: tuple(v.utctimetuple())))
+        same("timestamp", lambda v: v.timestamp())
+        off = same("utcoffset", lambda v: v.utcoffset())
+        res["off"] = [0, 0] if off is None else [1, off.days * 86400 + off.seconds]
+        nm = same("tzname", lambda v: v.tzname())
+        res["abbr"] = proj.cps(nm or "")
+        same("dst", lambda v: v.dst())
+        same("ctime", lambda v: v.ctime())
+        same("date", lambda v: (v.date().year, v.date().month, v.date().day))
+        same("time", lambda v: (v.time().hour, v.time().minute, v.time().second, v.time().microsecond))
+        same("timetz", lambda v: (v.timetz().hour, v.timetz().microsecond, v.timetz().utcoffset()))
+        d_, t_ = x.date(), x.time()
+        res["date"] = [type(d_).__name__, [d_.year, d_.month, d_.day]]
+        res["time"] = [type(t_).__name__, [t_.hour, t_.minute, t_.second, t_.microsecond]]
+        td = _dt.timedelta(hours=5, seconds=1)
+        typed("astimezone", lambda: x.astimezone(_dt.timezone.utc) if x.tzinfo is not None else x.astimezone(), "DateTime")
+        typed("replace", lambda: x.replace(microsecond=5), "DateTime")
+        typed("+", lambda: x + td, "DateTime")
+        typed("-", lambda: x - td, "DateTime")
+        typed("r+", lambda: td + x, "DateTime")
+        typed("fromtimestamp", lambda: type(x).fromtimestamp(86400 * 365.25 * 30, tz=p.UTC), "DateTime")
+        typed("utcfromtimestamp", lambda: type(x).utcfromtimestamp(1e9), "DateTime")
+        typed("fromordinal", lambda: type(x).fromordinal(730000), "DateTime")
+        typed("combine", lambda: type(x).combine(_dt.date(2020, 1, 2), _dt.time(3, 4)), "DateTime")
+        typed("strptime", lambda: type(x).strptime("2020-01-02 03:04:05", "%Y-%m-%d %H:%M:%S"), "DateTime")
+        typed("now", lambda: type(x).now(), "DateTime")
+        typed("today", lambda: type(x).today(), "DateTime")
+        typed("date()", lambda: x.date(), "Date")
+        typed("time()", lambda: x.time(), "Time")
+        typed("min", lambda: type(x).min, "DateTime")
+        typed("max", lambda: type(x).max, "DateTime")
+    elif isinstance(x, _dt.date):
+        res["iso"] = proj.cps(same("isoformat", lambda v: v.isoformat()))
+        same("strftime", lambda v: v.strftime("%Y-%m-%d %j %A %B %U %W %G %V %u"))
+        res["ord"] = same("toordinal", lambda v: v.toordinal())
+        res["wd"] = same("weekday", lambda v: v.weekday())
+        res["iwd"] = same("isoweekday", lambda v: v.isoweekday())
+        res["isocal"] = list(same("isocalendar", lambda v: tuple(v.isocalendar())))
+        same("timetuple", lambda v: tuple(v.timetuple()))
+        same("ctime", lambda v: v.ctime())
+        typed("replace", lambda: x.replace(day=1), "Date")
+        typed("+", lambda: x + _dt.timedelta(days=3), "Date")
+        typed("-", lambda: x - _dt.timedelta(days=3), "Date")
+        typed("fromordinal", lambda: type(x).fromordinal(730000), "Date")
+        typed("fromtimestamp", lambda: type(x).fromtimestamp(1e9), "Date")
+        typed("today", lambda: type(x).today(), "Date")
+    else:
+        res["iso"] = proj.cps(same("isoformat", lambda v: v.isoformat()))
+        same("strftime", lambda v: v.strftime("%H:%M:%S.%f %I %p"))
+        same("utcoffset", lambda v: v.utcoffset())
+        same("tzname", lambda v: v.tzname())
+        same("dst", lambda v: v.dst())
+        typed("replace", lambda: x.replace(minute=1), "Time")
+    try:
+        res["eq_twin"] = bool(x == t) and bool(t == x)
+        res["hash_twin"] = hash(x) == hash(t)
+    except Exception:  # noqa: BLE001
+        res["eq_twin"] = res["hash_twin"] = False
+    res["neq"] = neq
+    res["badtypes"] = bad
+    return res
+
+
+@op("native_cmp")
+def _native_cmp(a, pre):
+    x, y = pre
+    tx, ty = _twin(x), _twin(y)
+    if x.tzinfo is not None and a.get("share"):
+        # same tzinfo object on both sides
+        y = y.__class__(y.year, y.month, y.day, y.hour, y.minute, y.second, y.microsecond, tzinfo=x.tzinfo, fold=y.fold)
+        ty = _dt.datetime(y.year, y.month, y.day, y.hour, y.minute, y.second, y.microsecond, tzinfo=tx.tzinfo, fold=y.fold)
+    a["same_tzinfo"] = x.tzinfo is not None and x.tzinfo is y.tzinfo
+    res = {"k": "cmp", "pp": _cmp6(x, y), "nn": _cmp6(tx, ty), "pn": _cmp6(x, ty)}
+    try:
+        res["sub"] = proj.td3(x - y)
+    except Exception as e:  # noqa: BLE001
+        res["sub"] = [0, 0, -1]
+        res["suberr"] = type(e).__name__
+    try:
+        res["nsub"] = proj.td3(tx - ty)
+    except Exception:  # noqa: BLE001
+        res["nsub"] = [0, 0, -2]
+    return res
+
+
 # ---------------------------------------------------------------- execution
 class HarnessTimeout(Exception):
     """the call did not return within OP_TIMEOUT seconds (observed as non-termination)"""
